@@ -108,9 +108,13 @@ pub fn main(args: &[String]) {
             let n: usize = args[1].parse().unwrap();
             let maxlen: u64 = args[2].parse().unwrap();
             let mut rng = Rng::from_env(0xC170);
+            // one buffer, overwritten in place for every list: the phrase may depend on nothing but the kinds in the slice it is given
+            // (not on what the same memory held at an earlier call)
+            let mut v: Vec<ValueKind> = Vec::with_capacity(maxlen as usize + 1);
             for _ in 0..n {
                 let len = rng.below(maxlen + 1);
-                let v: Vec<ValueKind> = (0..len).map(|_| *rng.pick(&ALL)).collect();
+                v.clear();
+                v.extend((0..len).map(|_| *rng.pick(&ALL)));
                 run(&v, &mut out);
             }
         }
